@@ -60,6 +60,12 @@ def gen_cases(tier, seed):
         for k_read in (1, 3):
             for b in (["save-state", "step"], ["save-state", "steps2"], ["save-state", "stream-nobody"], ["save-state"]):
                 cases.append(dict(mode="samethread", first=a, read=k_read, between=list(b), adapter=True, seed=seed))
+    # requests that advance nothing (a zero / negative number of steps, begin-session, end-session) between two chunks of a stream, followed by stepping requests
+    for a in ("stream", "stream-nobody"):
+        for k_read in (1, 3):
+            for nb in ("steps0", "steps-neg", "begin-session", "end-session"):
+                for after in (["step"], ["steps2"], ["stream-nobody", "step"]):
+                    cases.append(dict(mode="samethread", first=a, read=k_read, between=[nb] + list(after), adapter=(k_read == 3), seed=seed))
     # a stream-steps request that is rejected (body without settings / unparseable body): the instance stays usable
     for bad in ("stream-bad-nosettings", "stream-bad-json"):
         for after in (["step"], ["steps2"], ["stream"], ["step-nobody", "stream-nobody"]):
@@ -305,7 +311,7 @@ def run_samethread(case, counters):
             calls.append((cur[0], before, self.session_state["step"] if self.session_state else None, ok))
     B.run_step = run_step
     out = {}
-    stepping = [b for b in case["between"] if b != "save-state" and not b.startswith("stream-bad")]
+    stepping = [b for b in case["between"] if b not in ("save-state", "begin-session", "end-session", "steps0", "steps-neg") and not b.startswith("stream-bad")]
     kinds = (["stream"] if case["first"] else []) + [("step" if b.startswith("step-") or b == "step" else "stream" if b.startswith("stream") else b) for b in stepping]
     base = 1 if case["first"] else 0
     rejected_ok = True
@@ -327,6 +333,18 @@ def run_samethread(case, counters):
                 rs = c.get("/save-state")
                 rs.get_data()
                 counters["saves_during_stream"] = counters.get("saves_during_stream", 0) + 1
+                continue
+            if b in ("begin-session", "end-session", "steps0", "steps-neg"):
+                # requests that advance nothing themselves: whatever they answer, they must not let a later stepping request in while the
+                # stream is unfinished, and must not disturb the stream
+                if b == "begin-session":
+                    rb = c.post("/%s/begin-session" % iid, json={"scenario_managers": [srv.MG], "scenarios": [srv.SC], "equations": ["stock", "rate"]})
+                elif b == "end-session":
+                    rb = c.post("/%s/end-session" % iid)
+                else:
+                    rb = c.post("/%s/run-steps" % iid, json={"numberSteps": 0 if b == "steps0" else -1, "settings": {srv.MG: {srv.SC: {"constants": {"rate": 0.5}}}}})
+                rb.get_data()
+                counters["non_stepping_requests_during_stream"] = counters.get("non_stepping_requests_during_stream", 0) + 1
                 continue
             if b.startswith("stream-bad"):
                 # a request the handler rejects after (or before) it has looked at the lock
